@@ -22,6 +22,21 @@ CHECKS = {
         "extracted patchers are run on the binary's own JSON and unified text.",
    design="5/C18", technique="Coq proof over edit scripts + correspondence of the builder model with the binary + extracted patchers applied to real output",
    note=BASE_NOTE + "similar (diff algorithm, unified printer) is modelled as an oracle of valid scripts; the patch-text parser in the driver is glue."),
+ "C13": dict(
+   text="Theorems on the process model (files with arbitrary outcomes, results arriving in any order): check mode leaves the file system unchanged; status 0 iff all formatted, 1 iff something differs and nothing failed, 2 iff something failed; "
+        "a diff exactly for differing files. The levels are tied to the EXIT_CODE accesses rs2v extracts from main.rs; the model is run (extracted) against the binary on random directory trees with every failure kind and all four output formats.",
+   design="5/C13", technique="Coq proof on a process model + exit-code accesses regenerated from source + binary correspondence on directory trees",
+   note=BASE_NOTE + "The library's verdict per file is an oracle; OS-level touching is observed through bytes and mtime only."),
+ "C14": dict(
+   text="Theorems on the same process model in write mode: a failing file keeps its bytes, every other selected file ends with its complete formatted text wherever it stands (induction over the file list, distinct paths), "
+        "a file holds only its old bytes or its complete formatted text, status 2 on any failure and 0 otherwise. Tied to the binary on random trees mixing unparseable, unreadable, verification-failing and immutable files in every order.",
+   design="5/C14", technique="Coq proof on a process model + binary correspondence on directory trees",
+   note=BASE_NOTE + "Write atomicity under crashes (fs::write truncates first) is outside the property's quantifier and the model."),
+ "C19": dict(
+   text="Theorems over every interleaving and any number of threads: programs that only load / fetch_max the exit code end with the maximum reported, and the status never goes down; result order does not affect status; writes to distinct files commute. "
+        "The programs are extracted from main.rs by rs2v on every run and `protocol_monotone = true` is re-proved; the real binary is driven through every total order of its exit-code accesses by a cfg-guarded scheduling cell, and through --num-threads 1..16.",
+   design="5/C19", technique="Coq proof over all schedules + protocol regenerated from source + forced interleavings on the binary",
+   note=BASE_NOTE + "Real preemption is replaced by forced orders of named accesses (hook src/cli/verif_sched.rs); only the exit-code cell is scheduled."),
 }
 PENDING = {}
 def main():
@@ -39,7 +54,7 @@ def main():
             na.append(dict(property_id=i, reason=PENDING.get(i, "not claimed yet: its check is still being built (see DESIGN.md section 7 for the order of work)")))
     m = dict(version=1, setup_cmd="./sv setup",
              hooks=dict(guard="stylua_verif", enable='RUSTFLAGS="--cfg stylua_verif" (set by svlib/core.py for every cargo build of the harness)',
-                        baseline_off_cmd="cd /repo && cargo test --workspace --no-fail-fast --offline", source_commits=[], add_only=True),
+                        baseline_off_cmd="cd /repo && cargo test --workspace --no-fail-fast --offline", source_commits=["c346a05"], add_only=True),
              engines=[dict(name="sv", path="/verif/sv", serves_properties=sorted(CHECKS), kind_free_text="Coq 8.16 proofs (coq/), extracted OCaml judges (ml/), Rust harness (harness/), Python runner (svlib/)")],
              checks=checks, not_applicable=na,
              notes="Repairs of genuine defects are `fix:` commits in /repo, listed as fixed in known_findings.jsonl; see DESIGN.md.")
